@@ -2,6 +2,7 @@ import Tbx.Proofs.ChipperBest
 import Tbx.Proofs.ChipperReports
 import Tbx.Proofs.ChipperPar
 import Tbx.Proofs.ChipperStepC03
+import Tbx.Proofs.ChipperSpecAll
 /-
 C05 — chipper emits the exact recursive inertial-flow hierarchy for every node.
 
@@ -72,6 +73,14 @@ theorem id_path (bits : List Bool) (k : Nat) :
     · rw [level_idOfSides _ (by simpa using h)]; simp
     · rw [level_idOfSides _ (by simpa using h)]; simp
     · exact idOfSides_fits _ (by simpa using h)
+
+/-- The Spec's executable form (what the judge runs, `best` evaluated once per cell) lists, for every node,
+    exactly the sides of the per-node definition `specSides` - for any `best` whose two sides are disjoint
+    sub-lists of the cell. -/
+theorem specAll_sound (best : Cell → Option (List Nat × List Nat)) (m : Nat) (hb : BestSides best)
+    (d : Nat) (c : Cell) (p : Nat × List Bool) (h : p ∈ specAll best m d c) :
+    p.1 ∈ c.ids ∧ p.2 = specSides best m d c p.1 :=
+  ⟨specAll_keys best m hb d c p h, Tbx.Hierarchy.specAll_sound best m hb d c p h⟩
 
 /-- reading an id top-down gives back the sides it was built from -/
 theorem id_reads_back (s : List Bool) : sidesOf (idOfSides s) = s := sidesOf_idOfSides s
@@ -246,16 +255,39 @@ theorem toyStep_spec (n : Nat) (kOf : Nat → Nat) : StepSpec n toyStep kOf wher
       · intro e he; have := hjob.src e he; rw [hids] at this; simpa using this
     · cases h
 
+/-- the side condition of `level_exact` holds for the toy step: every well-formed job gets a result -/
+theorem toyStep_fin (n : Nat) (kOf : Nat → Nat) :
+    ∀ job, JobOK n job → JobFull job → ∃ res, bestSeq toyStep kOf job = .some res := by
+  intro job hjob _
+  have h2 := hjob.two
+  match hids : job.ids with
+  | [] => rw [hids] at h2; simp at h2
+  | [_] => rw [hids] at h2; simp at h2
+  | x :: y :: rest =>
+    refine ⟨{ flow := 0, left := [x], right := y :: rest }, ?_⟩
+    simp [bestSeq, bestPar, bestOf, axisOuts, toyStep, hids, List.range, List.range.loop, isPanic, okOf, minBy,
+      minOp, flowCmp]
+
 def exCfg : Cfg := { r := 2, m := 1, kOf := fun _ => 1 }
 def exEdges : List Chipper.Edge := [(0, 1), (1, 0), (1, 2), (2, 1), (2, 3), (3, 2)]
 
 example : (chipper toyStep exCfg exEdges 4).map (fun o => o.1.toList) = some [4, 6, 7, 7] := by decide
 example : ∀ e ∈ exEdges, e.1 < 4 := by decide
+/-- `level_exact` and `hierarchy` applied to the concrete run -/
+example (out : Array Nat × List (List Job)) (h : chipper toyStep exCfg exEdges 4 = some out) :
+    ∀ x, x < 4 → pidLevel (gt out.1 x) = 2 :=
+  level_exact toyStep exCfg exEdges 4 (by decide) (by decide) (by decide) (by decide) (by decide) (by decide)
+    (toyStep_spec 4 _) (toyStep_fin 4 _) out h
+example (out : Array Nat × List (List Job)) (h : chipper toyStep exCfg exEdges 4 = some out) :
+    sidesOf (gt out.1 1) = specSides (specBest (bestSeq toyStep exCfg.kOf)) 1 2 { edges := exEdges, ids := List.range 4 } 1 :=
+  (hierarchy toyStep exCfg exEdges 4 (by decide) (by decide) (by decide) (by decide) (toyStep_spec 4 _) out h 1 (by decide)).2
 example : ∀ x, x < 4 → ∃ e ∈ exEdges, e.1 = x := by decide
 example : pidLeftmostDescendant (idOfSides [true, false]) 3 = 2 ^ 5 + 2 * 2 ^ 3 ∧
     pidLevel (pidRightmostDescendant (idOfSides [true, false]) 3) = 5 := by decide
 example : minBy [⟨2, [1], [2, 3]⟩, ⟨1, [1], [2, 3, 4]⟩, ⟨1, [1, 2], [3, 4]⟩, ⟨1, [3, 4], [1, 2]⟩] =
     some ⟨1, [1, 2], [3, 4]⟩ := by decide
+example : specAll (specBest (bestSeq toyStep exCfg.kOf)) 1 2 { edges := exEdges, ids := [0, 1, 2, 3] } =
+    [(0, [false, false]), (1, [true, false]), (2, [true, true]), (3, [true, true])] := by decide
 example : cutEdges exEdges #[4, 6, 7, 7] = [(0, 1), (1, 0), (1, 2), (2, 1)] := by decide
 
 end Tbx.Props.C05
